@@ -46,6 +46,35 @@ type (
 	defBool bool
 )
 
+// Embedded structs: the fields "a" / "b" of the inputs are promoted through an embedded struct, an embedded pointer
+// (nil in a fresh destination: the decoder has to allocate it, or report that it cannot for an unexported type),
+// two levels of embedded pointers, and the same inside slices and maps.
+type embAB struct {
+	A int32  `nbt:"a"`
+	B string `nbt:"b"`
+}
+type embab struct {
+	A int32  `nbt:"a"`
+	B []int8 `nbt:"b"`
+}
+type embVal struct {
+	embAB
+	C int8 `nbt:"c"`
+}
+type EmbAB embAB
+type embPtr struct {
+	*EmbAB
+	C int8 `nbt:"c"`
+}
+type EmbPtr embPtr
+type embPtrPtr struct {
+	*EmbPtr
+}
+type embUnexported struct {
+	*embab
+	C int8 `nbt:"c"`
+}
+
 type hsAB[T, U any] struct {
 	A T `nbt:"a"`
 	B U `nbt:"b"`
@@ -92,6 +121,9 @@ func wideEntries() []entry {
 		wide[hsAB[map[string]int32, []map[string]string]]("struct{a map[string]int32; b []map[string]string}"),
 		wide[hsAB[fmt.Stringer, error]]("struct{a fmt.Stringer; b error}"),
 		wide[hsAB[[]dynbt.Value, [2]uint32]]("struct{a []dynbt.Value; b [2]uint32}"),
+		wide[embVal]("struct{embedded struct{a;b}; c}"), wide[embPtr]("struct{*embedded struct{a;b}; c}"), wide[embPtrPtr]("struct{*struct{*embedded struct{a;b}}}"),
+		wide[embUnexported]("struct{*unexported struct{a;b}; c}"), wide[[]embPtr]("slice-struct-with-embedded-pointer"), wide[map[string]embPtr]("map-struct-with-embedded-pointer"),
+		wide[hsAB[embPtr, *embPtrPtr]]("struct{a struct{*embedded}; b *struct{*struct{*embedded}}}"),
 		wide[map[defKey]int8]("map-defined-key"), wide[map[defKey]defStr]("map-defined-key-defined-string"),
 		wide[[]defU8]("slice-defined-uint8"), wide[[]defI8]("slice-defined-int8"), wide[[]defBool]("slice-defined-bool"),
 		wide[[]defI32]("slice-defined-int32"), wide[[]defI64]("slice-defined-int64"), wide[[]defStr]("slice-defined-string"),
